@@ -58,6 +58,7 @@ CONSTANTS Node,          \* node ids
           FixD4,         \* TRUE = snapshot labelled with the configuration in force at the snapshot index (repaired)
           FixD11,        \* TRUE = a stale log view reports entries in removed segments as not found (repaired)
           FixD3,         \* TRUE = canChangeConfig requires an own-term commit (repaired)
+          FixD13,        \* TRUE = a follower flushes its log before every successful append reply (repaired)
           FixD5,         \* TRUE = onSnapshotTaken keeps leader.removeLTE >= log.PrevIndex (repaired)
           FixD2,         \* TRUE = leader.changeConfig caches numVoters of the NEW configuration (repaired)
           KeepHist,      \* record the sequence of events in `hist` (schedule export)
@@ -538,7 +539,8 @@ OnAppendEntriesRequest(s, req) ==
        ELSE LET s2 == IF req.prev > s1.snapIdx /\ CanCommit(s1, req, req.prev, req.prevTerm)
                       THEN ApplyCommittedF(SetCommitIndexR(s1, req.prev)) ELSE s1
                 c  == Consume(s2, req.ents, req.prev, req.prevTerm, FALSE)
-                s3 == IF c.appended
+                \* (FixD13: everything that is acknowledged is flushed, also entries that were already in the log)
+                s3 == IF c.appended \/ FixD13
                       THEN LET sf == IF G_FlushBeforeAck THEN CommitLog(c.s) ELSE c.s
                            IN IF CanCommit(sf, req, c.idx, c.tm) THEN ApplyCommittedF(SetCommitIndexR(sf, c.idx)) ELSE sf
                       ELSE c.s
@@ -1069,6 +1071,7 @@ Inv_C05 == C05_OneVotePerTerm(gh) /\ C05_TermMonotone(gh) /\ C05_GrantDurable(gh
 Inv_C06 == C06_MajorityDurable(gh)
 Inv_C15 == C15_NoSelfInflictedDeath(node)
 Inv_C08 == C08_OneVoterDelta(node) /\ C08_ConfigOnlyWhenSafe(gh)
+Inv_C10 == C10_RestartOK(gh)
 Inv_C11 == C11_OnlyVotersCampaign(gh) /\ C11_OnlyVotersLead(gh) /\ C11_PromoteAfterRound(gh) /\ C11_StopOnlyWhenRemoved(gh) /\ C11_DemotedLeaderStepsDown(node)
 Inv_C09 == C09_SnapshotCommitted(gh, node) /\ C09_NoViewInvalidation(node) /\ C03_FsmIsCommittedPrefix(gh, node)
 Inv_C12 == C12_LabelOK(gh, node)
